@@ -1262,6 +1262,15 @@ def isclose(a, b, rtol=1e-05, atol=1e-08, equal_nan=False):
     return one(a, b)
 
 
+def union1d(a, b):
+    """sorted union of the values of two arrays"""
+    out = []
+    for v in list(_obj(a).flat) + list(_obj(b).flat):
+        if not _b.any(_b.bool(v == w) for w in out):
+            out.append(v)
+    return NDArr(_obj(_sorted(out))) if out else NDArr(_np.empty(0, dtype=object))
+
+
 def unique(x):
     lst = _sorted(list(_obj(x).flat))
     out = []
